@@ -1,3 +1,535 @@
 import GnpyModel
-/- Property theorems for C05 (only the property theorems and their non-vacuity examples live here;
-   helper lemmas go to GnpyProofs/Lemmas). -/
+import GnpyProofs.Lemmas.Fiber
+import GnpyProofs.Lemmas.Raman
+/- Property theorems for C05 — fibre spans apply exactly their loss budget and accumulate CD, PMD, PDL, latency.
+   Model: GnpyModel/Fiber.lean (+ Gn.lean for the loss coefficient).  All statements over ℝ. -/
+namespace Gnpy.Fiber
+open Gnpy.Gn
+
+/-! ### the loss budget (Raman off) -/
+
+/-- `exp(−α L)` with `α = loss / (10 log10 e)` is exactly `loss · L` dB of attenuation -/
+theorem exp_alpha_is_db (c len : ℝ) : Real.exp (-(alphaOfLoss c * len)) = db2lin (-(c * len)) := by
+  rw [alphaOfLoss_eq, db2lin_eq]; congr 1; ring
+
+/-- **each lumped loss multiplies exactly once** (no-Raman profile): the attenuation at the fibre end is
+`exp(−αL) · Π lumped`, wherever the losses sit (also several at one position, also on a grid point) -/
+theorem lumped_once (alpha len : ℝ) (lumped : List (ℝ × ℝ)) :
+    fibreLossLin alpha len lumped = Real.exp (-(alpha * len)) * prodL (lumped.map (·.2)) := by
+  simp only [fibreLossLin, createLumped, transc_exp]
+  congr 1
+  rw [foldl_insert_prod]
+  simp [prodL_append, prodL]
+
+/-- `_create_lumped_losses` returns strictly increasing positions (`numpy.unique`) -/
+theorem createLumped_sorted (lumped : List (ℝ × ℝ)) (z : List ℝ) :
+    ((createLumped lumped z).map (·.1)).Pairwise (· < ·) := by
+  simp only [createLumped]
+  generalize (lumped ++ z.map (fun x => (x, ((1:Nat):ℝ)))) = pts
+  suffices h : ∀ (acc : List (ℝ × ℝ)), (acc.map (·.1)).Pairwise (· < ·) →
+      ((pts.foldl (fun a pt => insertPoint pt a) acc).map (·.1)).Pairwise (· < ·) from h [] (by simp)
+  induction pts with
+  | nil => intro acc h; exact h
+  | cons pt rest ih => intro acc h; exact ih _ (insertPoint_sorted pt acc h).1
+
+/-- the whole of `Fiber.propagate` (Raman off) on one channel is one multiplication by `db2lin(−budget)` -/
+theorem propagateP_eq (p conIn attIn c len conOut : ℝ) (lumpedKm : List (ℝ × ℝ)) :
+    propagateP p conIn attIn (alphaOfLoss c) len (mkLumped lumpedKm) conOut
+      = p * db2lin (-(attIn + conIn + c * len + sumL (lumpedKm.map (·.2)) + conOut)) := by
+  have hprod : prodL ((mkLumped lumpedKm).map (·.2)) = db2lin (-(sumL (lumpedKm.map (·.2)))) := by
+    rw [← prod_lumpedLin]
+    simp [mkLumped, List.map_map, Function.comp_def]
+  simp only [propagateP, applyAttDb, Nat.cast_one]
+  rw [lumped_once, exp_alpha_is_db, hprod, one_div, one_div, ← db2lin_neg, ← db2lin_neg]
+  rw [mul_assoc, mul_assoc, ← db2lin_add, ← db2lin_add, ← db2lin_add]
+  congr 2; ring
+
+/-- **loss budget**: with Raman off every channel is attenuated, in dB, by exactly
+`padding + input connector + length × loss coefficient + Σ lumped losses + output connector` -/
+theorem loss_budget (p conIn attIn c len conOut : ℝ) (lumpedKm : List (ℝ × ℝ)) (hp : 0 < p) :
+    lin2db (p / propagateP p conIn attIn (alphaOfLoss c) len (mkLumped lumpedKm) conOut)
+      = attIn + conIn + c * len + sumL (lumpedKm.map (·.2)) + conOut := by
+  rw [propagateP_eq p conIn attIn c len conOut lumpedKm]
+  have h := db2lin_pos (-(attIn + conIn + c * len + sumL (lumpedKm.map (·.2)) + conOut))
+  rw [show p / (p * db2lin (-(attIn + conIn + c * len + sumL (lumpedKm.map (·.2)) + conOut)))
+      = (db2lin (-(attIn + conIn + c * len + sumL (lumpedKm.map (·.2)) + conOut)))⁻¹ by field_simp]
+  rw [← db2lin_neg, neg_neg, lin2db_db2lin]
+
+/-- the same on the span record: the loss coefficient is the one of the channel's own frequency
+(scalar or interpolated per frequency) -/
+theorem span_loss_budget (s : Span ℝ) (lumpedKm : List (ℝ × ℝ)) (f p c : ℝ) (hl : s.lumped = mkLumped lumpedKm)
+    (hc : lossCoef s.fib f = some c) (hp : 0 < p) :
+    ∃ pout, spanOut s f p = some pout ∧
+      lin2db (p / pout) = s.attIn + s.conIn + c * s.fib.len + sumL (lumpedKm.map (·.2)) + s.conOut := by
+  refine ⟨propagateP p s.conIn s.attIn (alphaOfLoss c) s.fib.len s.lumped s.conOut, ?_, ?_⟩
+  · simp [spanOut, alphaAt, hc]
+  · rw [hl]; exact loss_budget p s.conIn s.attIn c s.fib.len s.conOut lumpedKm hp
+
+/-- BEFORE FIX 74081ba1 (finding F12): of two lumped losses at the same position only the first was applied
+(`numpy.unique(..., return_index=True)` kept one entry per position).  Witness on the model of the old code:
+losses 1/2 and 1/2 at z = 1 of a fibre of length 2 leave the factor 1/2, the budget demands 1/4. -/
+theorem lumped_same_position_failed_before_fix :
+    prodL ((([((1:ℝ), (1/2:ℝ)), (1, 1/2), (0, 1), (2, 1)] : List (ℝ × ℝ)).foldl
+        (fun a pt => insertPointFirstWins pt a) []).map (·.2)) = 1 / 2 ∧
+    prodL ((createLumped [((1:ℝ), (1/2:ℝ)), (1, 1/2)] [0, 2]).map (·.2)) = 1 / 4 := by
+  constructor
+  · have h : ¬ ((2:ℝ) < 0) := by norm_num
+    simp [insertPointFirstWins, h]
+    norm_num [prodL]
+  · simp [createLumped, insertPoint]
+    norm_num [prodL]
+
+/-! ### accumulation of CD, latency (linear) and PMD, PDL (quadrature) over a path -/
+
+theorem accPath_cons (a : Acc ℝ) (c : Contribution ℝ) (cs : List (Contribution ℝ)) :
+    accPath a (c :: cs) = accPath (accStep a c) cs := rfl
+
+/-- **chromatic dispersion adds linearly over the elements of a path** -/
+theorem cd_additive (a : Acc ℝ) (cs : List (Contribution ℝ)) :
+    (accPath a cs).cd = a.cd + (cs.map (·.cd)).sum := by
+  induction cs generalizing a with
+  | nil => simp [accPath]
+  | cons c rest ih => rw [accPath_cons, ih]; simp [accStep]; ring
+
+/-- **latency adds linearly over the elements of a path** -/
+theorem latency_additive (a : Acc ℝ) (cs : List (Contribution ℝ)) :
+    (accPath a cs).latency = a.latency + (cs.map (·.latency)).sum := by
+  induction cs generalizing a with
+  | nil => simp [accPath]
+  | cons c rest ih => rw [accPath_cons, ih]; simp [accStep]; ring
+
+theorem accPath_pmd_fold (a : Acc ℝ) (cs : List (Contribution ℝ)) :
+    (accPath a cs).pmd = (cs.map (·.pmd)).foldl quadStep a.pmd := by
+  induction cs generalizing a with
+  | nil => simp [accPath]
+  | cons c rest ih => rw [accPath_cons, ih]; simp [accStep]
+
+theorem accPath_pdl_fold (a : Acc ℝ) (cs : List (Contribution ℝ)) :
+    (accPath a cs).pdl = (cs.map (·.pdl)).foldl quadStep a.pdl := by
+  induction cs generalizing a with
+  | nil => simp [accPath]
+  | cons c rest ih => rw [accPath_cons, ih]; simp [accStep]
+
+/-- the repeated update `x ← sqrt(x² + b²)` is the root of the sum of squares -/
+theorem quadrature_fold (x0 : ℝ) (bs : List ℝ) (h : 0 ≤ x0) :
+    bs.foldl quadStep x0 = Real.sqrt (x0 ^ 2 + (bs.map (fun b => b ^ 2)).sum) := foldl_quad bs x0 h
+
+/-- … hence independent of the order of the contributions -/
+theorem quadrature_perm (x0 : ℝ) (bs bs' : List ℝ) (h : 0 ≤ x0) (hp : bs.Perm bs') :
+    bs.foldl quadStep x0 = bs'.foldl quadStep x0 := by
+  rw [quadrature_fold x0 bs h, quadrature_fold x0 bs' h, (hp.map _).sum_eq]
+
+/-- **PMD adds in quadrature over fibres, ROADMs and amplifiers together** -/
+theorem pmd_quadrature (a : Acc ℝ) (cs : List (Contribution ℝ)) (h : 0 ≤ a.pmd) :
+    (accPath a cs).pmd = Real.sqrt (a.pmd ^ 2 + (cs.map (fun c => c.pmd ^ 2)).sum) := by
+  rw [accPath_pmd_fold, quadrature_fold _ _ h, List.map_map]; rfl
+
+/-- **PDL adds in quadrature over ROADMs and amplifiers** (a fibre contributes 0) -/
+theorem pdl_quadrature (a : Acc ℝ) (cs : List (Contribution ℝ)) (h : 0 ≤ a.pdl) :
+    (accPath a cs).pdl = Real.sqrt (a.pdl ^ 2 + (cs.map (fun c => c.pdl ^ 2)).sum) := by
+  rw [accPath_pdl_fold, quadrature_fold _ _ h, List.map_map]; rfl
+
+/-- **the accumulated CD, PMD, PDL and latency do not depend on the order of the spans, ROADMs and amplifiers** -/
+theorem path_order_irrelevant (a : Acc ℝ) (cs cs' : List (Contribution ℝ)) (hp : cs.Perm cs')
+    (h1 : 0 ≤ a.pmd) (h2 : 0 ≤ a.pdl) : accPath a cs = accPath a cs' := by
+  have e1 : (accPath a cs).cd = (accPath a cs').cd := by
+    rw [cd_additive, cd_additive, (hp.map _).sum_eq]
+  have e2 : (accPath a cs).latency = (accPath a cs').latency := by
+    rw [latency_additive, latency_additive, (hp.map _).sum_eq]
+  have e3 : (accPath a cs).pmd = (accPath a cs').pmd := by
+    rw [pmd_quadrature _ _ h1, pmd_quadrature _ _ h1, (hp.map _).sum_eq]
+  have e4 : (accPath a cs).pdl = (accPath a cs').pdl := by
+    rw [pdl_quadrature _ _ h2, pdl_quadrature _ _ h2, (hp.map _).sum_eq]
+  cases hA : accPath a cs; cases hB : accPath a cs'
+  simp only [hA, hB] at e1 e2 e3 e4
+  simp [e1, e2, e3, e4]
+
+/-! ### what one fibre contributes -/
+
+/-- a fibre's PMD contribution squared is `pmd_coef² · length` -/
+theorem fibre_pmd_sq (k len : ℝ) (h : 0 ≤ len) : fibrePmd k len ^ 2 = k ^ 2 * len := by
+  simp only [fibrePmd, transc_sqrt]
+  rw [mul_pow, Real.sq_sqrt h]
+
+/-- a fibre leaves the PDL as it is -/
+theorem fibre_pdl_unchanged (x : ℝ) (h : 0 ≤ x) : quadStep x ((0:Nat):ℝ) = x := by
+  simp only [quadStep, transc_sqrt, Nat.cast_zero, mul_zero, add_zero]
+  exact Real.sqrt_mul_self h
+
+/-- latency of a span: `length · n₁ / c` -/
+theorem latency_formula (len : ℝ) : latency len = len * n1 / cLight := by
+  have hc : (cLight : ℝ) ≠ 0 := by simp only [cLight, Nat.cast_ofNat]; norm_num
+  have hn : (n1 : ℝ) ≠ 0 := by simp only [n1, Nat.cast_ofNat]; norm_num
+  simp only [latency]; field_simp
+
+/-- at the reference frequency the span adds exactly `D · length` of chromatic dispersion -/
+theorem cd_at_ref (d b3 fr len : ℝ) (hf : 0 < fr) :
+    chromaticDispersion (beta2OfDisp fr d) b3 fr fr len = d * len := by
+  have hpi := Real.pi_pos
+  simp only [chromaticDispersion, beta2OfDisp, cLight, haspi_real, Nat.cast_ofNat]
+  field_simp
+  ring
+
+/-! ### non-vacuity -/
+example : lumpedPositionsOk (80000:ℝ) [((20:ℝ), (1:ℝ)), (20, 2)] = true := by
+  simp [lumpedPositionsOk]; norm_num
+example : (0:ℝ) ≤ ({ cd := 0, pmd := 0, pdl := 0, latency := 0 } : Acc ℝ).pmd := le_refl _
+example : [lumpedContribution (1:ℝ) 2, fibreContribution 1 0 1 1 1 1].Perm
+    [fibreContribution 1 0 1 1 1 1, lumpedContribution (1:ℝ) 2] := List.Perm.swap _ _ _
+
+end Gnpy.Fiber
+
+/-! ## Raman on: the unidirectional solver (model: namespace Gnpy.Raman in GnpyModel/Fiber.lean)
+
+What is a theorem here: with zero Raman efficiency the explicit-Euler method is the plain attenuation law of the grid
+(`euler_zero_cr`), which lies within `2 α² Σ Δz²` Neper of the exact budget (`eulerFactor_bounds`: the tolerance of
+the monitor's low-power and method-agreement checks); the perturbative exponent of order 1–4 is exactly `−α z` on every
+interval between lumped losses (`perturbative_zero_cr`); the order-1 term is linear in the launch powers
+(`perturbative_low_power`: at power scale `t → 0` the no-Raman loss remains) and non-negative for waves with
+non-negative Raman efficiency onto the channel, e.g. pumps above the signal (`counterprop_gain_only_partial`).
+NOT theorems (monitor only, see PARTIAL in harness/props/c05.py): `raman_methods_agree_partial` — "perturbative and
+numerical agree" is a numerical-analysis statement with a resolution- and power-dependent error; the iterative
+co/counter-propagating algorithm and the full-order gain-only statement. -/
+namespace Gnpy.Raman
+
+/-- **explicit Euler, zero Raman efficiency**: the last column of the power profile is, on every frequency,
+`p · Π_k (1 − α Δz_k) · lumped_k` – each lumped loss of the grid exactly once -/
+theorem euler_zero_cr (alpha : List ℝ) (cr : List (List ℝ)) (hz : MZero cr) :
+    ∀ (grid : List (ℝ × ℝ)) (p : List ℝ), cr.length = p.length → alpha.length = p.length →
+      ∃ init, euler alpha cr p grid = init ++ [scaleBy (fun a => eulerFactor a grid) p alpha] := by
+  intro grid
+  induction grid with
+  | nil =>
+    intro p _ h2
+    exact ⟨[], by simp [euler, eulerFactor, scaleBy_one p alpha h2.symm]⟩
+  | cons g0 rest ih =>
+    intro p h1 h2
+    cases rest with
+    | nil => exact ⟨[], by simp [euler, eulerFactor, scaleBy_one p alpha h2.symm]⟩
+    | cons g1 rest' =>
+      simp only [euler, eulerStep]
+      rw [eulerStepGo_zero p (g1.1 - g0.1) g0.2 p alpha cr hz h1]
+      have hl := plainStep_length (g1.1 - g0.1) g0.2 p alpha h2.symm
+      obtain ⟨init, hinit⟩ := ih (plainStep (g1.1 - g0.1) g0.2 p alpha) (by rw [hl]; exact h1) (by rw [hl]; exact h2)
+      refine ⟨p :: init, ?_⟩
+      rw [hinit, scaleBy_plainStep]
+      simp only [List.cons_append, eulerFactor]
+
+/-- what the grid spans, the sum of its squared steps, the product of its lumped losses -/
+def gridSpan : List (ℝ × ℝ) → ℝ
+  | g0 :: g1 :: rest => (g1.1 - g0.1) + gridSpan (g1 :: rest)
+  | _ => 0
+def gridSq : List (ℝ × ℝ) → ℝ
+  | g0 :: g1 :: rest => (g1.1 - g0.1) ^ 2 + gridSq (g1 :: rest)
+  | _ => 0
+def gridLoss : List (ℝ × ℝ) → ℝ
+  | g0 :: g1 :: rest => g0.2 * gridLoss (g1 :: rest)
+  | _ => 1
+/-- every step is resolved (`0 ≤ α Δz ≤ 1/2`) and every lumped factor is positive -/
+def GridOk (a : ℝ) : List (ℝ × ℝ) → Prop
+  | g0 :: g1 :: rest => 0 ≤ a * (g1.1 - g0.1) ∧ a * (g1.1 - g0.1) ≤ 1 / 2 ∧ 0 < g0.2 ∧ GridOk a (g1 :: rest)
+  | _ => True
+
+theorem gridLoss_pos (a : ℝ) : ∀ (grid : List (ℝ × ℝ)), GridOk a grid → 0 < gridLoss grid := by
+  intro grid
+  induction grid with
+  | nil => intro _; simp [gridLoss]
+  | cons g0 rest ih =>
+    intro h
+    cases rest with
+    | nil => simp [gridLoss]
+    | cons g1 rest' =>
+      simp only [GridOk] at h
+      simp only [gridLoss]
+      exact mul_pos h.2.2.1 (ih h.2.2.2)
+
+/-- **explicit Euler vs the exact attenuation law**: on a resolved grid the Euler factor lies between
+`exp(−αL − 2α² Σ Δz²) · Π lumped` and `exp(−αL) · Π lumped`: in dB the numerical method over-estimates the loss budget by
+at most `2 · (10/ln 10) · α² · Σ Δz²` (this is the tolerance the monitor uses for the low-power limit) -/
+theorem eulerFactor_bounds (a : ℝ) : ∀ (grid : List (ℝ × ℝ)), GridOk a grid →
+    Real.exp (-(a * gridSpan grid) - 2 * a ^ 2 * gridSq grid) * gridLoss grid ≤ eulerFactor a grid ∧
+    eulerFactor a grid ≤ Real.exp (-(a * gridSpan grid)) * gridLoss grid := by
+  intro grid
+  induction grid with
+  | nil => intro _; simp [gridSpan, gridSq, gridLoss, eulerFactor]
+  | cons g0 rest ih =>
+    intro h
+    cases rest with
+    | nil => simp [gridSpan, gridSq, gridLoss, eulerFactor]
+    | cons g1 rest' =>
+      simp only [GridOk] at h
+      obtain ⟨h0, h1, hl, hrest⟩ := h
+      obtain ⟨lo, hi⟩ := ih hrest
+      have hG := gridLoss_pos a (g1 :: rest') hrest
+      have hb := one_sub_bounds (a * (g1.1 - g0.1)) h0 h1
+      simp only [gridSpan, gridSq, gridLoss, eulerFactor]
+      set x := a * (g1.1 - g0.1) with hx
+      set F := eulerFactor a (g1 :: rest') with hF
+      set G := gridLoss (g1 :: rest') with hGd
+      set S := gridSpan (g1 :: rest') with hS
+      set Q := gridSq (g1 :: rest') with hQ
+      have hFpos : 0 ≤ F := le_trans (by positivity) lo
+      have h1x : 0 ≤ 1 - x := by linarith
+      constructor
+      · have e : Real.exp (-(a * ((g1.1 - g0.1) + S)) - 2 * a ^ 2 * ((g1.1 - g0.1) ^ 2 + Q)) * (g0.2 * G)
+            = (Real.exp (-x - 2 * x ^ 2) * g0.2) * (Real.exp (-(a * S) - 2 * a ^ 2 * Q) * G) := by
+          rw [show -(a * ((g1.1 - g0.1) + S)) - 2 * a ^ 2 * ((g1.1 - g0.1) ^ 2 + Q)
+              = (-x - 2 * x ^ 2) + (-(a * S) - 2 * a ^ 2 * Q) by rw [hx]; ring, Real.exp_add]
+          ring
+        rw [e]
+        apply mul_le_mul _ lo (by positivity) (mul_nonneg h1x (le_of_lt hl))
+        exact mul_le_mul_of_nonneg_right hb.1 (le_of_lt hl)
+      · have e : Real.exp (-(a * ((g1.1 - g0.1) + S))) * (g0.2 * G)
+            = (Real.exp (-x) * g0.2) * (Real.exp (-(a * S)) * G) := by
+          rw [show -(a * ((g1.1 - g0.1) + S)) = -x + -(a * S) by rw [hx]; ring, Real.exp_add]
+          ring
+        rw [e]
+        apply mul_le_mul _ hi hFpos (by positivity)
+        exact mul_le_mul_of_nonneg_right hb.2 (le_of_lt hl)
+
+/-- **perturbative method, zero Raman efficiency**: for every implemented order the exponent on an interval is
+exactly `−α z`: the plain attenuation law -/
+theorem perturbative_zero_cr (order : Nat) (ho : order ≤ 4) (alpha : List ℝ) (cr : List (List ℝ)) (p0 zs : List ℝ)
+    (hz : MZero cr) (hl : cr.length = alpha.length) (hzs : zs ≠ []) :
+    expoInterval order alpha cr p0 zs = expo0 alpha zs := by
+  have hcrp := mzero_crpM cr p0 hz
+  have hlen0 : (expo0 alpha zs).length = alpha.length := by simp [expo0, alphazM]
+  have hlenx : (expzM alpha zs).length = alpha.length := by simp [expzM, alphazM]
+  have hr0 := rect_expo0 alpha zs
+  -- first order
+  have z1 : ZeroRect zs.length (gamma1 alpha cr p0 zs) := zeroRect_crTimes _ _ _ hcrp (rect_effLenM alpha zs)
+  have l1 : (gamma1 alpha cr p0 zs).length = alpha.length := by simp [gamma1, crTimes, crpM, hl]
+  have e1 : madd (expo0 alpha zs) (gamma1 alpha cr p0 zs) = expo0 alpha zs :=
+    madd_zeroRect _ _ _ (by rw [hlen0, l1]) hr0 z1
+  -- second order
+  have r2 : Rect zs.length (((expzM alpha zs).zip (gamma1 alpha cr p0 zs)).map
+      (fun x => trapCum (vmul x.1 x.2) zs)) := by
+    intro r hr
+    simp only [List.mem_map] at hr
+    obtain ⟨⟨u, v⟩, huv, rfl⟩ := hr
+    have hm := List.of_mem_zip huv
+    have hu := rect_expzM alpha zs u hm.1
+    have hv := (z1 v hm.2).1
+    exact trapCum_length _ _ (by rw [vmul_length u v (by rw [hu, hv]), hu]) hzs
+  set g1 := gamma1 alpha cr p0 zs with hg1
+  set g2 := crTimes zs.length (crpM cr p0) (((expzM alpha zs).zip g1).map (fun x => trapCum (vmul x.1 x.2) zs))
+    with hg2
+  have z2 : ZeroRect zs.length g2 := zeroRect_crTimes _ _ _ hcrp r2
+  have l2 : g2.length = alpha.length := by simp [hg2, crTimes, crpM, hl]
+  have e2 : madd (expo0 alpha zs) g2 = expo0 alpha zs := madd_zeroRect _ _ _ (by rw [hlen0, l2]) hr0 z2
+  -- third order
+  have r3 : Rect zs.length (((expzM alpha zs).zip (g1.zip g2)).map (fun x =>
+      trapCum (vmul x.1 (vadd x.2.2 (vscale (((1:Nat):ℝ) / ((2:Nat):ℝ)) (vmul x.2.1 x.2.1)))) zs)) := by
+    intro r hr
+    simp only [List.mem_map] at hr
+    obtain ⟨⟨u, v, w⟩, huv, rfl⟩ := hr
+    have hm := List.of_mem_zip huv
+    have hm2 := List.of_mem_zip hm.2
+    have hu := rect_expzM alpha zs u hm.1
+    have hv := (z1 v hm2.1).1
+    have hw := (z2 w hm2.2).1
+    apply trapCum_length _ _ _ hzs
+    have a1 : (vmul v v).length = zs.length := by rw [vmul_length v v rfl, hv]
+    have a2 : (vadd w (vscale (((1:Nat):ℝ) / ((2:Nat):ℝ)) (vmul v v))).length = zs.length := by
+      rw [vadd_length _ _ (by rw [vscale_length, a1, hw]), hw]
+    rw [vmul_length _ _ (by rw [hu, a2]), hu]
+  set g3 := crTimes zs.length (crpM cr p0) (((expzM alpha zs).zip (g1.zip g2)).map (fun x =>
+      trapCum (vmul x.1 (vadd x.2.2 (vscale (((1:Nat):ℝ) / ((2:Nat):ℝ)) (vmul x.2.1 x.2.1)))) zs)) with hg3
+  have z3 : ZeroRect zs.length g3 := zeroRect_crTimes _ _ _ hcrp r3
+  have l3 : g3.length = alpha.length := by simp [hg3, crTimes, crpM, hl]
+  have e3 : madd (expo0 alpha zs) g3 = expo0 alpha zs := madd_zeroRect _ _ _ (by rw [hlen0, l3]) hr0 z3
+  -- fourth order
+  have r4 : Rect zs.length (((expzM alpha zs).zip (g1.zip (g2.zip g3))).map (fun x =>
+      trapCum (vmul x.1 (vadd (vadd x.2.2.2 (vmul x.2.1 x.2.2.1))
+        (vscale (((1:Nat):ℝ) / ((6:Nat):ℝ)) (vmul x.2.1 (vmul x.2.1 x.2.1))))) zs)) := by
+    intro r hr
+    simp only [List.mem_map] at hr
+    obtain ⟨⟨u, v, w, y⟩, huv, rfl⟩ := hr
+    have hm := List.of_mem_zip huv
+    have hm2 := List.of_mem_zip hm.2
+    have hm3 := List.of_mem_zip hm2.2
+    have hu := rect_expzM alpha zs u hm.1
+    have hv := (z1 v hm2.1).1
+    have hw := (z2 w hm3.1).1
+    have hy := (z3 y hm3.2).1
+    apply trapCum_length _ _ _ hzs
+    have a1 : (vmul v w).length = zs.length := by rw [vmul_length v w (by rw [hv, hw]), hv]
+    have a2 : (vadd y (vmul v w)).length = zs.length := by rw [vadd_length _ _ (by rw [a1, hy]), hy]
+    have a3 : (vmul v v).length = zs.length := by rw [vmul_length v v rfl, hv]
+    have a4 : (vmul v (vmul v v)).length = zs.length := by rw [vmul_length _ _ (by rw [a3, hv]), hv]
+    have a5 : (vadd (vadd y (vmul v w)) (vscale (((1:Nat):ℝ) / ((6:Nat):ℝ)) (vmul v (vmul v v)))).length
+        = zs.length := by rw [vadd_length _ _ (by rw [vscale_length, a4, a2]), a2]
+    rw [vmul_length _ _ (by rw [hu, a5]), hu]
+  set g4 := crTimes zs.length (crpM cr p0) (((expzM alpha zs).zip (g1.zip (g2.zip g3))).map (fun x =>
+      trapCum (vmul x.1 (vadd (vadd x.2.2.2 (vmul x.2.1 x.2.2.1))
+        (vscale (((1:Nat):ℝ) / ((6:Nat):ℝ)) (vmul x.2.1 (vmul x.2.1 x.2.1))))) zs)) with hg4
+  have z4 : ZeroRect zs.length g4 := zeroRect_crTimes _ _ _ hcrp r4
+  have l4 : g4.length = alpha.length := by simp [hg4, crTimes, crpM, hl]
+  have e4 : madd (expo0 alpha zs) g4 = expo0 alpha zs := madd_zeroRect _ _ _ (by rw [hlen0, l4]) hr0 z4
+  -- assemble
+  have hcases : order = 0 ∨ order = 1 ∨ order = 2 ∨ order = 3 ∨ order = 4 := by omega
+  rcases hcases with rfl | rfl | rfl | rfl | rfl
+  · simp [expoInterval]
+  · simp only [expoInterval, Nat.reduceEqDiff, ↓reduceIte]
+    rw [← hg1, e1]
+  · simp only [expoInterval, Nat.reduceEqDiff, ↓reduceIte]
+    rw [← hg1, e1, ← hg2, e2]
+  · simp only [expoInterval, Nat.reduceEqDiff, ↓reduceIte]
+    rw [← hg1, e1, ← hg2, e2, ← hg3, e3]
+  · simp only [expoInterval, Nat.reduceEqDiff, ↓reduceIte]
+    rw [← hg1, e1, ← hg2, e2, ← hg3, e3, ← hg4, e4]
+
+/-- the perturbative loop at zero Raman efficiency multiplies every frequency by `pertFactor` -/
+theorem perturbGo_zero_cr (order : Nat) (ho : order ≤ 4) (alpha : List ℝ) (cr : List (List ℝ)) (hz : MZero cr)
+    (hl : cr.length = alpha.length) :
+    ∀ (fuel : Nat) (pin : List ℝ) (ll : ℝ) (grid : List (ℝ × ℝ)) (acc : List (List ℝ)), pin.length = alpha.length →
+      (perturbGo order alpha cr fuel pin ll grid acc).2 = scaleBy (fun a => pertFactor a fuel ll grid) pin alpha := by
+  intro fuel
+  induction fuel with
+  | zero => intro pin ll grid acc h; simp [perturbGo, pertFactor, scaleBy_one pin alpha h]
+  | succ fuel ih =>
+    intro pin ll grid acc h
+    cases grid with
+    | nil => simp [perturbGo, pertFactor, scaleBy_one pin alpha h]
+    | cons g0 rest =>
+      cases rest with
+      | nil => simp [perturbGo, pertFactor, scaleBy_one pin alpha h]
+      | cons g1 rest' =>
+        simp only [perturbGo, pertFactor]
+        have hzs : (takeInterval (g0 :: g1 :: rest')).1.map (fun g => g.1 - g0.1) ≠ [] := by
+          simp [takeInterval]
+        have hstep : ((powerInterval order alpha cr (pin.map (fun x => x * ll))
+              ((takeInterval (g0 :: g1 :: rest')).1.map (fun g => g.1 - g0.1))).zip pin).map
+              (fun x => lastD x.2 x.1)
+            = scaleBy (fun a => ll * Real.exp (-(a * lastD 0
+                ((takeInterval (g0 :: g1 :: rest')).1.map (fun g => g.1 - g0.1))))) pin alpha := by
+          simp only [powerInterval]
+          rw [perturbative_zero_cr order ho alpha cr _ _ hz hl hzs]
+          exact pinNext_zero ll _ hzs alpha pin h
+        rw [hstep, ih _ _ _ _ (by rw [scaleBy_length _ pin alpha h]), scaleBy_scaleBy]
+        simp only [Nat.cast_one]
+        apply scaleBy_congr
+        intro a
+        generalize (takeInterval (g0 :: g1 :: rest')).2 = iv2
+        cases iv2 <;> rfl
+
+/-- **perturbative method, zero Raman efficiency, whole fibre with lumped losses**: at the fibre end every frequency
+carries `p · exp(−α (z_last − z_first)) · Π lumped factors strictly inside the fibre` – the plain attenuation law with
+each lumped loss exactly once, for every implemented order -/
+theorem perturbative_zero_cr_grid (order : Nat) (ho : order ≤ 4) (alpha : List ℝ) (cr : List (List ℝ)) (hz : MZero cr)
+    (hl : cr.length = alpha.length) (pin : List ℝ) (hp : pin.length = alpha.length) (g0 : ℝ × ℝ)
+    (rest : List (ℝ × ℝ)) (hne : rest ≠ []) :
+    perturbativeEnd order alpha cr pin (g0 :: rest)
+      = scaleBy (fun a => Real.exp (-(a * (lastD g0.1 (rest.map (·.1)) - g0.1)))
+          * Gnpy.Fiber.prodL (rest.dropLast.map (·.2))) pin alpha := by
+  simp only [perturbativeEnd, Nat.cast_one]
+  rw [perturbGo_zero_cr order ho alpha cr hz hl _ pin 1 (g0 :: rest) _ hp]
+  apply scaleBy_congr
+  intro a
+  rw [pertFactor_closed a _ 1 g0 rest (by simp) hne]
+  ring
+
+/-- **low-power limit of the perturbative method (order 1)**: with all launch powers scaled by `t` the exponent is
+`−α z + t · γ₁`; at `t = 0` it is the plain attenuation exponent -/
+theorem perturbative_low_power (alpha : List ℝ) (cr : List (List ℝ)) (p0 zs : List ℝ) (t : ℝ) :
+    expoInterval 1 alpha cr (vscale t p0) zs
+      = madd (expo0 alpha zs) ((gamma1 alpha cr p0 zs).map (vscale t)) ∧
+    (cr.length = alpha.length →
+      expoInterval 1 alpha cr (vscale 0 p0) zs = expo0 alpha zs) := by
+  constructor
+  · simp [expoInterval, gamma1_scale]
+  · intro hl
+    simp only [expoInterval]
+    simp only [Nat.succ_ne_zero, if_false, if_true, gamma1_scale]
+    apply madd_zeroRect zs.length
+    · simp [expo0, alphazM, gamma1, crTimes, crpM, hl]
+    · exact rect_expo0 alpha zs
+    · intro r hr
+      simp only [List.mem_map] at hr
+      obtain ⟨q, hq, rfl⟩ := hr
+      have hqlen : q.length = zs.length := rect_crTimes _ _ _ (rect_effLenM alpha zs) q hq
+      exact ⟨by rw [vscale_length, hqlen], vzero_vscale_of_zero 0 q rfl⟩
+
+/-- **size of the first-order term**: along the whole interval the first-order Raman exponent of a channel is bounded by
+`Σ_b |cr_ab| · p_b / α_b` – proportional to the launch powers: this is the quantitative low-power limit of the order-1
+perturbative solution (and the `X` of the monitor's tolerance) -/
+theorem gamma1_bound (alpha : List ℝ) (row p0 zs : List ℝ) (ha : ∀ a ∈ alpha, 0 < a) (hz : ∀ z ∈ zs, 0 ≤ z) :
+    ∀ x ∈ rowTimes zs.length (vmul row p0) (effLenM alpha zs),
+      |x| ≤ rowBound (vmul row p0) (alpha.map (fun a => 1 / a)) :=
+  rowTimes_abs_le _ _ _ _ (effLenM_bounds alpha zs ha hz)
+
+/-- **sign of the first-order term** (partial form of "counter-propagating pumps only add gain"): when every wave has
+a non-negative Raman efficiency onto the channel of row `row` (e.g. pumps above the signal frequency: `cr ≥ 0`),
+positive loss coefficients, non-negative launch powers and positions, the first-order Raman term of that channel is
+non-negative along the whole interval – relative to plain attenuation the channel only gains.
+FULL STATEMENT (not a theorem here): with the counter-propagating pumps switched on, the power of every channel at the
+fibre end, as computed by `calculate_stimulated_raman_scattering` (iterative algorithm, any method/order/resolution), is
+at least the power computed with the pumps off.  Checked by the monitor only. -/
+theorem counterprop_gain_only_partial (alpha : List ℝ) (row p0 zs : List ℝ) (ha : ∀ a ∈ alpha, 0 < a)
+    (hz : ∀ z ∈ zs, 0 ≤ z) (hrow : ∀ c ∈ row, 0 ≤ c) (hp : ∀ x ∈ p0, 0 ≤ x) :
+    ∀ x ∈ rowTimes zs.length (vmul row p0) (effLenM alpha zs), 0 ≤ x :=
+  rowTimes_nonneg _ _ _ (vmul_nonneg row p0 hrow hp) (effLenM_nonneg alpha zs ha hz)
+
+/-- the same for the whole first-order matrix when all efficiencies are non-negative -/
+theorem gamma1_nonneg (alpha : List ℝ) (cr : List (List ℝ)) (p0 zs : List ℝ) (ha : ∀ a ∈ alpha, 0 < a)
+    (hz : ∀ z ∈ zs, 0 ≤ z) (hcr : ∀ row ∈ cr, ∀ c ∈ row, 0 ≤ c) (hp : ∀ x ∈ p0, 0 ≤ x) :
+    ∀ r ∈ gamma1 alpha cr p0 zs, ∀ x ∈ r, 0 ≤ x := by
+  intro r hr
+  simp only [gamma1, crTimes, crpM, List.map_map, List.mem_map, Function.comp] at hr
+  obtain ⟨row, hrow, rfl⟩ := hr
+  exact counterprop_gain_only_partial alpha row p0 zs ha hz (hcr row hrow) hp
+
+/-! ### the grid built by `_create_lumped_losses` -/
+
+theorem prodL_ones_map (z : List ℝ) : Gnpy.Fiber.prodL ((z.map (fun x => (x, ((1:Nat):ℝ)))).map (·.2)) = 1 := by
+  induction z with
+  | nil => simp [Gnpy.Fiber.prodL]
+  | cons x xs ih => simp only [List.map_cons, Gnpy.Fiber.prodL, ih]; simp
+
+/-- the merged grid carries every lumped loss exactly once: the product of all its factors is the product of the
+lumped losses of the fibre -/
+theorem createLumped_prod (lumped : List (ℝ × ℝ)) (z : List ℝ) :
+    Gnpy.Fiber.prodL ((Gnpy.Fiber.createLumped lumped z).map (·.2)) = Gnpy.Fiber.prodL (lumped.map (·.2)) := by
+  simp only [Gnpy.Fiber.createLumped]
+  rw [Gnpy.Fiber.foldl_insert_prod, List.map_append, Gnpy.Fiber.prodL_append, prodL_ones_map]
+  simp [Gnpy.Fiber.prodL]
+
+/-- when the last grid point carries no loss, the Euler product of lumped factors is the product of all of them -/
+theorem gridLoss_eq_prod : ∀ (grid : List (ℝ × ℝ)), lastD 1 (grid.map (·.2)) = 1 →
+    gridLoss grid = Gnpy.Fiber.prodL (grid.map (·.2)) := by
+  intro grid
+  induction grid with
+  | nil => intro _; simp [gridLoss, Gnpy.Fiber.prodL]
+  | cons g0 rest ih =>
+    intro h
+    cases rest with
+    | nil =>
+      simp only [List.map_cons, List.map_nil, lastD] at h
+      simp [gridLoss, Gnpy.Fiber.prodL, h]
+    | cons g1 rest' =>
+      simp only [List.map_cons, lastD] at h
+      have := ih (by simpa [lastD_cons_ne 1 1] using h)
+      simp only [gridLoss, List.map_cons, Gnpy.Fiber.prodL] at this ⊢
+      rw [this]
+
+/-- **numerical method, zero Raman efficiency, on the fibre's own grid**: the Euler factor of every frequency lies
+within `exp(−2α² Σ Δz²)` of `exp(−αL) · Π lumped` – the loss budget with every lumped loss once -/
+theorem euler_budget (a : ℝ) (lumped : List (ℝ × ℝ)) (z : List ℝ)
+    (hok : GridOk a (Gnpy.Fiber.createLumped lumped z))
+    (hlast : lastD 1 ((Gnpy.Fiber.createLumped lumped z).map (·.2)) = 1) :
+    Real.exp (-(a * gridSpan (Gnpy.Fiber.createLumped lumped z)) - 2 * a ^ 2 * gridSq (Gnpy.Fiber.createLumped lumped z))
+        * Gnpy.Fiber.prodL (lumped.map (·.2)) ≤ eulerFactor a (Gnpy.Fiber.createLumped lumped z) ∧
+      eulerFactor a (Gnpy.Fiber.createLumped lumped z)
+        ≤ Real.exp (-(a * gridSpan (Gnpy.Fiber.createLumped lumped z))) * Gnpy.Fiber.prodL (lumped.map (·.2)) := by
+  have h := eulerFactor_bounds a _ hok
+  rw [gridLoss_eq_prod _ hlast, createLumped_prod] at h
+  exact h
+
+/-! ### non-vacuity -/
+example : MZero [[(0:ℝ), 0], [0, 0]] := by
+  intro r hr x hx; simp at hr; rcases hr with rfl | rfl <;> simpa using hx
+example : GridOk (46 / 1000000 : ℝ) [(0, 1), (1000, 1 / 2), (2000, 1)] := by
+  simp [GridOk]; norm_num
+example : ∀ a ∈ [(46 / 1000000 : ℝ)], 0 < a := by simp
+
+end Gnpy.Raman
